@@ -132,7 +132,8 @@ def build_cases(recs, which, tier, seed, per_poly_placements):
                 variants = [variants[(start + ip) % len(variants)]]
             for nz, variant in variants:
                 cases.append({"rec": r, "pl": pl.to_json(), "nz": nz, "variant": variant, "cls": "Polygon",
-                              "which": which, "single_step": 5 if tier == "quick" else 1})
+                              "which": which, "single_step": 5 if tier == "quick" else 1,
+                              "nlen": [3.0, 1.0, 1.000003, 0.999995][(start + ip + nz) % 4]})
                 if r["convex"] and pl is chosen[0] or (r["convex"] and variant == "explicit" and nz == 1):
                     cases.append({"rec": r, "pl": pl.to_json(), "nz": nz, "variant": variant,
                                   "cls": "ConvexPolygon", "which": which, "single_step": 7})
